@@ -2,6 +2,7 @@ package main
 
 import (
 	"fmt"
+	"go/token"
 	"go/types"
 	"strings"
 
@@ -275,12 +276,70 @@ func ruleLoadRepair(c *Ctx) {
 		"every adjust walks all rules of the patched view (mutated and committed) to assign their group")
 }
 
+// ruleInitializeOrder: Initialize binds every loaded rule to its group in
+// adjust(); the groups (and the rules) must have been loaded by then, or every
+// rule is bound to a default group and the persisted index/override is ignored
+// until the next update.
+func ruleInitializeOrder(c *Ctx) {
+	P := c.P
+	const plc = "server/schedule/placement"
+	rule := c.Prop + "/load-and-save-keys"
+	ini := P.Method(plc, "RuleManager", "Initialize")
+	adj := F(P.Method(plc, "ruleConfig", "adjust"))
+	lr := F(P.Method(plc, "RuleManager", "loadRules"))
+	lg := F(P.Method(plc, "RuleManager", "loadGroups"))
+	c.need(rule, ini, "call ruleConfig.adjust", instrCallMatcher(adj), []Ev{newOkEv(ini, "ok(loadRules)", callMatcher(lr)), newOkEv(ini, "ok(loadGroups)", callMatcher(lg))}, all,
+		"rules are bound to their groups only after both the rules and the group configurations were loaded")
+	// LoadRangeByPrefix: the next page starts strictly after the last key delivered
+	lp := P.Method("server/core", "Storage", "LoadRangeByPrefix")
+	c.saw(fnName(lp))
+	okNext := false
+	for _, b := range lp.Blocks {
+		for _, ins := range b.Instrs {
+			if bo, ok := ins.(*ssa.BinOp); ok && bo.Op == token.ADD {
+				if sfx, isStr := constString(bo.Y); isStr && sfx == "\x00" {
+					if u, ok := strip(bo.X).(*ssa.UnOp); ok {
+						if _, isIdx := u.X.(*ssa.IndexAddr); isIdx {
+							okNext = true
+						}
+					}
+				}
+			}
+		}
+	}
+	loadRange := P.IMethod("server/kv", "Base", "LoadRange")
+	okArg := false
+	for _, ci := range callsIn(lp, false, loadRange) {
+		a := callArgs(ci.Common())
+		if len(a) == 3 {
+			if phi, ok := a[0].(*ssa.Phi); ok {
+				for _, e := range phi.Edges {
+					if bo, ok := e.(*ssa.BinOp); ok && bo.Op == token.ADD {
+						if sfx, isStr := constString(bo.Y); isStr && sfx == "\x00" {
+							okArg = true
+						}
+					}
+				}
+				// and nothing else but the prefix
+				for _, e := range phi.Edges {
+					if _, isAdd := e.(*ssa.BinOp); !isAdd {
+						if _, isParam := e.(*ssa.Parameter); !isParam {
+							okArg = false
+						}
+					}
+				}
+			}
+		}
+	}
+	c.Check(okNext && okArg, rule, "page cursor in "+fnName(lp), "the next page starts at (last key of the page) + \"\\x00\": strictly after it, so no key is delivered twice (a second delivery is treated as a duplicate and deleted)", P.pos(lp.Pos()), "")
+}
+
 func init() {
 	register("C13", "Placement rule updates are all-or-nothing and the key-range index is exact", func(c *Ctx) {
 		c.Group("C13/build-save-commit", "an update is published (config maps and key-range index) only after the new index was built and the update saved; every mutator commits its own patch under the write lock", func() { ruleCommitOrder(c) })
 		c.Group("C13/ownership", "the served maps and index are written only by the configuration's own methods, the patch commit and the loaders", func() { ruleRuleConfigOwnership(c) })
 		c.Group("C13/validity", "every segment is validated on the rule set that will apply (after override): non-empty, one leader at most, at least one voter or leader", func() { ruleValidityAtoms(c) })
 		c.Group("C13/borrowed-immutable", "rules handed out by the manager are never edited in place", func() { ruleBorrowedImmutable(c) })
-		c.Group("C13/load-and-save-keys", "rules are saved under their canonical key, mis-keyed entries are repaired at load, write errors abort", func() { ruleLoadRepair(c) })
+		c.Group("C13/load-and-save-keys", "rules are saved under their canonical key, mis-keyed entries are repaired at load, write errors abort", func() { ruleLoadRepair(c); ruleInitializeOrder(c) })
 	})
 }
